@@ -163,6 +163,10 @@ func acScen(c *Ctx) {
 					of.Contents = append([]byte(nil), b.Data...)
 					of.Contents[0] ^= 0xff
 					cs.inlineOK = false
+					if r.Chance(1, 2) {
+						// ... while a blob with the declared digest is already stored
+						toStore = append(toStore, b)
+					}
 				}
 			} else {
 				ref := mkRef(of.Path)
@@ -364,6 +368,7 @@ func acScen(c *Ctx) {
 				// inlined bytes that do not match their digest: the upload must fail (C01) and store nothing
 				if res.OK {
 					s.Violate("C01.ack-match", site, "ActionResult whose inlined bytes do not match their digest acknowledged")
+					s.Violate("C11.inline-true-digest", site, "ActionResult accepted although the inlined contents of an output file do not match its declared digest (the bytes cannot be stored under their true digest)")
 				} else if changed {
 					s.Violate("C11.reject-stores-nothing", site+"/inline-mismatch", "the upload was rejected (inlined bytes do not match their digest) but the action-cache entry was stored")
 				}
